@@ -74,6 +74,18 @@ impl Metric {
             1
         }
     }
+    /// The metric a C09 "metric change" scenario switches to (see `with_metric_pair!`).
+    pub fn pair(self) -> Metric {
+        match self {
+            Metric::Euclidean => Metric::Manhattan,
+            Metric::Manhattan => Metric::Cosine,
+            Metric::Cosine => Metric::BqCosine,
+            Metric::DotProduct => Metric::Euclidean,
+            Metric::BqEuclidean => Metric::BqManhattan,
+            Metric::BqManhattan => Metric::Euclidean,
+            Metric::BqCosine => Metric::DotProduct,
+        }
+    }
     pub fn idx(self) -> usize {
         ALL_METRICS.iter().position(|m| *m == self).unwrap()
     }
@@ -109,6 +121,50 @@ macro_rules! with_metric {
             }
             $crate::metric::Metric::BqCosine => {
                 type $D = arroy::distances::BinaryQuantizedCosine;
+                $body
+            }
+        }
+    };
+}
+
+/// `$D` = the type of `$m`, `$D2` = the type of `$m.pair()`.
+#[macro_export]
+macro_rules! with_metric_pair {
+    ($m:expr, $D:ident, $D2:ident, $body:expr) => {
+        match $m {
+            $crate::metric::Metric::Euclidean => {
+                type $D = arroy::distances::Euclidean;
+                type $D2 = arroy::distances::Manhattan;
+                $body
+            }
+            $crate::metric::Metric::Manhattan => {
+                type $D = arroy::distances::Manhattan;
+                type $D2 = arroy::distances::Cosine;
+                $body
+            }
+            $crate::metric::Metric::Cosine => {
+                type $D = arroy::distances::Cosine;
+                type $D2 = arroy::distances::BinaryQuantizedCosine;
+                $body
+            }
+            $crate::metric::Metric::DotProduct => {
+                type $D = arroy::distances::DotProduct;
+                type $D2 = arroy::distances::Euclidean;
+                $body
+            }
+            $crate::metric::Metric::BqEuclidean => {
+                type $D = arroy::distances::BinaryQuantizedEuclidean;
+                type $D2 = arroy::distances::BinaryQuantizedManhattan;
+                $body
+            }
+            $crate::metric::Metric::BqManhattan => {
+                type $D = arroy::distances::BinaryQuantizedManhattan;
+                type $D2 = arroy::distances::Euclidean;
+                $body
+            }
+            $crate::metric::Metric::BqCosine => {
+                type $D = arroy::distances::BinaryQuantizedCosine;
+                type $D2 = arroy::distances::DotProduct;
                 $body
             }
         }
